@@ -5,7 +5,7 @@ from .. import common, gen, pool, pipefam, readerfam
 RULE = ("histories of loads of the same result files through DensityData(...), verify_h5_cache and the two directory-level constructors: "
         "exhaustive sequences up to length 3 (quick: 2) over the four constructors x strand mixtures, plus histories whose first load is "
         "killed (forked child, os._exit) before the copy / mid-copy / after the copy / after j exchanged genes / before publishing, with "
-        "and without an HDF5 flush, or interrupted by an exception (Ctrl-C) at the j-th gene of the swap loop, followed by 1-2 loads; plus two loads of two different files of one directory interleaved (5 orders of their start / copy / publish steps) followed by loads of both; every completed load is compared column by column with the raw file and with "
+        "and without an HDF5 flush, or interrupted by an exception (Ctrl-C) at the j-th gene of the swap loop, or hit by ONE transient I/O error at the k-th dataset write of the exchange, followed by 1-2 loads; plus two loads of two different files of one directory interleaved (5 orders of their start / copy / publish steps) followed by loads of both; every completed load is compared column by column with the raw file and with "
         "the model; non-trivial = history with >= 2 loads or a crash, and a minus-strand gene; distinct = (case, history)")
 HOWS = ["ctor", "verify", "dir", "regex"]
 COQ_HOW = {"ctor": "ByCtor", "verify": "ByVerify", "dir": "ByVerify", "regex": "ByCtor"}
@@ -21,6 +21,10 @@ def histories(tier, nminus):
         for first in ["ctor", "verify"]:
             for after in [["ctor"], ["verify", "dir"]]:
                 hs.append([{"how": first, "crash": {"k": j, "mode": "raise"}}] + [{"how": a} for a in after])
+    for k in range(1, 4 * nminus + 1):    # one transient I/O error at the k-th dataset write of the exchange (4 writes per minus gene)
+        for first, after in ((("ctor", ["verify", "ctor"]), ("verify", ["ctor"])) if tier == "quick" else
+                             (("ctor", ["verify", "ctor"]), ("verify", ["ctor"]), ("dir", ["dir", "ctor"]), ("regex", ["verify"]))):
+            hs.append([{"how": first, "crash": {"k": k, "mode": "eio"}}] + [{"how": a} for a in after])
     ks = list(range(0, 4 + nminus))
     for k in ks:
         for flush in (True, False):
@@ -48,7 +52,7 @@ def run(chk):
         if rep.get("ok") and rep["raw_genes"]:
             fn, order = sorted(rep["raw_genes"].items())[0]
             g, raw, idx = readerfam.model_genes_raw(c, fn[2:-3], order)
-            ops = "[" + "; ".join(("Crash %d" % (s["crash"]["k"] + (1 if s["crash"].get("mode") == "raise" else 0))) if s.get("crash") is not None else "Load " + COQ_HOW[s["how"]] for s in steps) + "]"
+            ops = "[" + "; ".join(("Crash %d" % ((s["crash"]["k"] - 1) // 4 + 2 if s["crash"].get("mode") == "eio" else s["crash"]["k"] + (1 if s["crash"].get("mode") == "raise" else 0))) if s.get("crash") is not None else "Load " + COQ_HOW[s["how"]] for s in steps) + "]"
             exprs.append("flat_history %s %s %s" % (g, ops, raw)); meta.append((si, idx))
     try:
         flats = common.coq_eval("c15", "From TEV Require Import Model.Reader.", "", exprs, chunk=150)
